@@ -149,9 +149,11 @@ Definition trial_final (c : case) (p : proj) : bool :=
              | JFail => pt_is t TFailed
              | JSucc => match v with
                         | Some _ =>
-                            (* with the push collector a successful job whose metrics had not been reported when the
-                               controller looked is MetricsUnavailable for good, even if they arrive later *)
-                            pt_is t TSucceeded || (c_push (k_cfg c) && pt_is t TMetricsUnavailable)
+                            (* a successful job whose objective value had not been reported when the controller looked
+                               is MetricsUnavailable for good, even if the value arrives later (metrics arrive
+                               progressively; with the push collector already when nothing had been reported): whether
+                               MetricsUnavailable was justified at the time is what [mu_walk] checks *)
+                            pt_is t TSucceeded || pt_is t TMetricsUnavailable
                         | None => pt_is t TMetricsUnavailable
                         end
              | JActive => true
@@ -159,8 +161,34 @@ Definition trial_final (c : case) (p : proj) : bool :=
     | _, _ => true
     end) (pj_trials p).
 
+(* MetricsUnavailable is reported only for a trial whose objective value was not in the DB when the trial reconcile that
+   reports it began (all reads of a reconcile are as of its Begin): [snap] is the DB at the Begin of the trial reconcile in
+   progress, with its key *)
+Fixpoint mu_walk (snap : option (nat * list (nat * option Z))) (prev : proj) (steps : list (action * proj)) : bool :=
+  match steps with
+  | [] => true
+  | (a, p) :: r =>
+      let snap' := match a with
+                   | Begin CTrial k _ _ => (* a Begin while a reconcile is pending is ignored *)
+                       match pj_pending prev with (_, _, true) => snap | _ => Some (k, pj_db prev) end
+                   | _ => snap end in
+      forallb (fun t =>
+        match find_pt (pt_name t) prev with
+        | Some t0 =>
+            if pt_is t TMetricsUnavailable && negb (pt_is t0 TMetricsUnavailable) then
+              match snap' with
+              | Some (k, db) => Nat.eqb k (pt_name t) &&
+                                match db_get (pt_name t) db with Some (Some _) => false | _ => true end
+              | None => false
+              end
+            else true
+        | None => negb (pt_is t TMetricsUnavailable)
+        end) (pj_trials p)
+      && mu_walk snap' p r
+  end.
+
 Definition trial_ok (c : case) : bool :=
-  all_steps trial_step (initial c) (k_steps c) &&
+  all_steps trial_step (initial c) (k_steps c) && mu_walk None (initial c) (k_steps c) &&
   match k_quiet c with Some _ => trial_final c (last_state c) | None => true end.
 
 (* ------------------------------------------------------------------ C07: run object lifecycle *)
